@@ -25,9 +25,11 @@ def cmd(r, k, dur):
     return 'echo "start.%d.%d $(date +%%s%%N)" >> "$TRACE"; %s; echo "end.%d.%d $(date +%%s%%N)" >> "$TRACE"' % (r, k, body, r, k)
 
 
-def task(r, durs, before=None, timeout_ms=0, allow=False):
+def task(r, durs, before=None, timeout_ms=0, allow=False, condition=None):
     t = {"name": "t%d" % r, "commands": [cmd(r, k + (1 if before else 0), d) for k, d in enumerate(durs)],
          "before": [cmd(r, 0, before)] if before else [], "ncmds": len(durs) + (1 if before else 0)}
+    if condition:          # the task's own condition is a command like the others: Cancel ends it, and a task interrupted there reports an error (it is not "skipped")
+        t["condition"] = condition
     if timeout_ms:
         t["timeout_ms"] = timeout_ms
     if allow:
@@ -80,6 +82,12 @@ def gen_cases(ctx):
         add("in-flight-with-timeout-%d" % k, [task(r, ["30", "30"], timeout_ms=25000) for r in range(k)],
             [{"op": "cancel", "after_ms": 400}, {"op": "par", "tasks": list(range(k))}])
     add("before-hook-with-timeout", [task(0, ["0.1"], before="30", timeout_ms=25000)], [{"op": "cancel", "after_ms": 300}, {"op": "run", "tasks": [0]}])
+    # during the task's CONDITION: a plain command, and one whose work happens inside a command substitution
+    for k in (1, 2):
+        add("during-condition-%d" % k, [task(r, ["0.1", "0.1"], condition="sleep 30") for r in range(k)], [{"op": "cancel", "after_ms": 300}, {"op": "par", "tasks": list(range(k))}])
+    add("during-condition-substitution", [task(0, ["0.1"], condition='[ "$(sleep 30; echo go)" = go ]')], [{"op": "cancel", "after_ms": 300}, {"op": "run", "tasks": [0]}])
+    add("during-condition-pipeline", [task(0, ["0.1"], condition='[ "$(sleep 30; echo go)" = go ]'), task(1, ["0.05"])],
+        [{"op": "cancel", "after_ms": 300}, {"op": "pipeline", "stages": [{"task": 0, "deps": []}, {"task": 1, "deps": [0]}]}])
     # during a before hook
     add("during-before-hook", [task(0, ["0.1", "0.1"], before="30")], [{"op": "cancel", "after_ms": 300}, {"op": "run", "tasks": [0]}])
     # between commands: short commands, Cancel at varying offsets
